@@ -235,9 +235,9 @@ def rule_bind_keep(db: ProgramDB) -> List[Instance]:
                     if isinstance(e, ast.Call) and (dotted(e.func) in ("copy", "dict")) and e.args \
                             and isinstance(e.args[0], ast.Name) and e.args[0].id in whole:
                         keeps = True
-                    if isinstance(e, ast.Dict) and any(k is None and isinstance(v, ast.Name) and v.id in whole
+                    if isinstance(e, ast.Dict) and any(isinstance(v, ast.Name) and v.id in whole
                                                        for k, v in zip(e.keys, e.values)):
-                        keeps = True
+                        keeps = True      # merged (**r) or carried as a whole under a name ({name: r})
                 if not keeps:
                     bad = (node, exprs)
                     break
@@ -467,4 +467,71 @@ def rule_dedup_parent(db: ProgramDB) -> List[Instance]:
                         "a path returns the key without what the parent requires from this node: rows that differ only in a "
                         "variable an ancestor (e.g. the rule head / the selected variables) needs are suppressed as duplicates: "
                         + " ".join(cfg.describe_path(p)[-3:])))
+    return out
+
+
+def rule_product_correlated(db: ProgramDB) -> List[Instance]:
+    """Evaluation streams whose rows end up in one row may share variables that are not bound yet.  Creating them all under
+    the same binding and multiplying them (a product combinator) enumerates such a variable once per stream, mixing values
+    of different assignments; they must be evaluated one under the binding of the other (nested / recursive binding)."""
+    out = []
+    model = site_model(db)
+    n = 0
+    for fn in sorted(db.all_functions(), key=lambda f: f.qualname):
+        # collections of streams built in one expression: {k: v._evaluate…(B) for …}, [x._evaluate…(B) for …]
+        for node in own_nodes(fn.node):
+            if not isinstance(node, (ast.DictComp, ast.ListComp, ast.GeneratorExp, ast.SetComp)):
+                continue
+            elt = node.value if isinstance(node, ast.DictComp) else node.elt
+            calls = [c for c in ast.walk(elt) if isinstance(c, ast.Call) and is_eval_name(call_attr(c))]
+            if not calls:
+                continue
+            # is the collection handed to a product-class combinator?
+            holder = None
+            p = db.parent(node)
+            if isinstance(p, ast.Assign) and len(p.targets) == 1 and isinstance(p.targets[0], ast.Name):
+                holder = p.targets[0].id
+            users = []
+            for c in own_calls(fn):
+                argn = set()
+                for a in list(c.args) + [k.value for k in c.keywords]:
+                    argn |= names_in(a)
+                    if a is node:
+                        argn.add("<inline>")
+                if (holder and holder in argn) or "<inline>" in argn:
+                    users.append(c)
+            for u in users:
+                t = resolve_call_target(db, fn, u)
+                if not isinstance(t, FuncInfo):
+                    if isinstance(u.func, ast.Attribute) and isinstance(u.func.value, ast.Name) and u.func.value.id == "self" and fn.cls:
+                        t = fn.cls.lookup(u.func.attr)
+                if not isinstance(t, FuncInfo):
+                    continue
+                kind, why = combinator_class(db, t)
+                if kind == "unknown" and t.cls is not None:
+                    # a method that forwards the collection to a combinator
+                    for c2 in own_calls(t):
+                        t2 = resolve_call_target(db, t, c2)
+                        if isinstance(t2, FuncInfo):
+                            k2, w2 = combinator_class(db, t2)
+                            if k2 != "unknown":
+                                kind, why = k2, f"{t2.name}: {w2}"
+                if kind != "product":
+                    continue
+                n += 1
+                out.append(inst("PRODUCT-CORRELATED", VIOLATION, fn, f"{fn.short}[{unparse(node)[:50]}]",
+                                f"`{unparse(node)[:70]}` starts one evaluation stream per expression, all under the same binding, "
+                                f"and `{t.name}` multiplies them ({why}): expressions that share a variable the binding leaves "
+                                f"unbound (q.name and q.age; a parent and its flattened attribute) enumerate it independently, so "
+                                f"one row mixes values of different assignments", line=node.lineno))
+    # the accepted idiom must be present where several expressions are bound into one row
+    seq = []
+    for fn in db.all_functions():
+        if fn.is_generator and fn.cls is not None and combinator_class(db, fn)[0] == "product" and any(
+                is_eval_name(call_attr(c)) for c in own_calls(fn)):
+            seq.append(fn)
+    for fn in sorted(seq, key=lambda f: f.qualname):
+        out.append(inst("PRODUCT-CORRELATED", HOLDS, fn, fn.short,
+                        "binds several expressions into one row by recursive nested evaluation, each under the binding "
+                        "accumulated so far"))
     return out
